@@ -197,36 +197,41 @@ func bastionE2EMain(args []string) error {
 	if api == "" {
 		return fmt.Errorf("witness child did not report its API address")
 	}
-	t0 := time.Now()
 	type acc struct {
 		c   net.Conn
 		err error
 	}
-	ch := make(chan acc, 1)
-	go func() { c, err := ln.Accept(); ch <- acc{c, err} }()
-	var conn net.Conn
-	select {
-	case a := <-ch:
-		if a.err != nil {
-			return a.err
+	// accept waits for the witness to dial in (it does so on a 5 s ticker, also after a connection was lost)
+	accept := func() (*tls.Conn, *http2.ClientConn, time.Duration, error) {
+		t0 := time.Now()
+		ch := make(chan acc, 1)
+		go func() { c, err := ln.Accept(); ch <- acc{c, err} }()
+		var conn net.Conn
+		select {
+		case a := <-ch:
+			if a.err != nil {
+				return nil, nil, 0, a.err
+			}
+			conn = a.c
+		case <-time.After(60 * time.Second):
+			return nil, nil, 0, fmt.Errorf("the witness did not connect to the stub bastion within 60 s")
 		}
-		conn = a.c
-	case <-time.After(60 * time.Second):
-		return fmt.Errorf("the witness did not connect to the stub bastion within 60 s")
+		tc := conn.(*tls.Conn)
+		if err := tc.Handshake(); err != nil {
+			return nil, nil, 0, fmt.Errorf("handshake: %v", err)
+		}
+		cs := tc.ConnectionState()
+		if cs.Version != tls.VersionTLS13 || cs.NegotiatedProtocol != "bastion/0" {
+			return nil, nil, 0, fmt.Errorf("unexpected connection: tls %x alpn %q", cs.Version, cs.NegotiatedProtocol)
+		}
+		cc, err := (&http2.Transport{}).NewClientConn(tc)
+		return tc, cc, time.Since(t0), err
 	}
-	tc := conn.(*tls.Conn)
-	if err := tc.Handshake(); err != nil {
-		return fmt.Errorf("handshake: %v", err)
-	}
-	cs := tc.ConnectionState()
-	if cs.Version != tls.VersionTLS13 || cs.NegotiatedProtocol != "bastion/0" {
-		return fmt.Errorf("unexpected connection: tls %x alpn %q", cs.Version, cs.NegotiatedProtocol)
-	}
-	connected := time.Since(t0)
-	cc, err := (&http2.Transport{}).NewClientConn(tc)
+	tc, cc, connected, err := accept()
 	if err != nil {
 		return err
 	}
+	var reconnected time.Duration
 	post := func(body []byte) (int, string, []byte) {
 		req, _ := http.NewRequest(http.MethodPost, "https://bastion.invalid/add-checkpoint", bytes.NewReader(body))
 		ctx, cancel := context.WithTimeout(context.Background(), 30*time.Second)
@@ -244,6 +249,14 @@ func bastionE2EMain(args []string) error {
 		return err
 	}
 	for i, r := range runs {
+		if i == len(runs)/2 && len(runs) >= 4 {
+			// the bastion drops the connection: the witness has to come back by itself, with its state intact
+			tc.Close()
+			tc, cc, reconnected, err = accept()
+			if err != nil {
+				return fmt.Errorf("after the connection was dropped: %v", err)
+			}
+		}
 		w := ws[i]
 		snap := func() snapshot {
 			s := snapshot{raw: map[string][]byte{}}
@@ -279,6 +292,7 @@ func bastionE2EMain(args []string) error {
 	if err := tw.Close(); err != nil {
 		return err
 	}
-	fmt.Printf("BASTION-E2E runs=%d events=%d connected_after=%v tls13=true alpn=bastion/0\n", len(runs), tw.n, connected.Round(time.Millisecond))
+	_ = tc
+	fmt.Printf("BASTION-E2E runs=%d events=%d connected_after=%v reconnected_after=%v tls13=true alpn=bastion/0\n", len(runs), tw.n, connected.Round(time.Millisecond), reconnected.Round(time.Millisecond))
 	return nil
 }
